@@ -388,7 +388,11 @@ static int hist_core(const case_t *c, int emit)
                     if (arg == 2) o2.lwork = -1;      /* workspace query through the driver */
                     o2.etree = intMalloc(n + 1); o2.colcnt_h = intMalloc(n + 1); o2.part_super_h = intMalloc(n + 1);
                     real_t *R2 = xmalloc((n + 1) * sizeof(real_t)), *C2 = xmalloc((n + 1) * sizeof(real_t)), fe[2], be[2], rpg2, rc2;
-                    equed_t eq2; superlu_memusage_t mu;
+                    /* the caller's equed variable is ONE variable that lives across the driver calls of the process (as in a real
+                       program): whatever an earlier call left in it is what this call finds */
+                    static equed_t shared_eq = NOEQUIL;
+#define eq2 shared_eq
+                    superlu_memusage_t mu;
                     GSSVX(nprocs, &o2, &A2, pc2, pr2, &eq2, R2, C2, &L2, &U2, &B2, &X2, &rpg2, &rc2, fe, be, &mu, &info);
                     if (arg == 6 && (info == 0 || info == n + 1)) {
                         /* re-use of valid factors with an A whose values are all zero (norm 0): still a legal call */
@@ -411,9 +415,11 @@ static int hist_core(const case_t *c, int emit)
                         dv = fnv(pr2, n * sizeof(int_t), dv); dv = fnv(&eq2, sizeof eq2, dv); dv = fnv(&rpg2, sizeof rpg2, dv);
                         if (eq2 == ROW || eq2 == BOTH) dv = fnv(R2, n * sizeof(real_t), dv);
                         if (eq2 == COL || eq2 == BOTH) dv = fnv(C2, n * sizeof(real_t), dv);
+                        dv = fnv(bb, n * sizeof(elem_t), dv);      /* B as returned (scaled exactly as equed says, or untouched) */
                         if (info == 0 || info == n + 1) { dv = fnv(&rc2, sizeof rc2, dv); dv = fnv(xx, n * sizeof(elem_t), dv); dv = fnv(fe, sizeof(real_t), dv); dv = fnv(be, sizeof(real_t), dv); }
                     }
                     free(R2); free(C2);
+#undef eq2
                 }
                 if (nprocs == 1) { dl += snprintf(dig + dl, sizeof dig - dl, "%s%c:%016llx", dl ? "," : "", op, (unsigned long long)dv); if (dl > sizeof dig - 40) dl = sizeof dig - 40; }
                 il += snprintf(infos + il, sizeof infos - il, "%s%c%ld", il ? "," : "", op, (long)info);
